@@ -17,12 +17,19 @@ Layers (kept apart on purpose):
         see it: after `remove_aliases_from_api`), and closure: every user-level type name that occurs in code
         (qualified `Ns.Name`, unqualified capitalised identifiers, `DBX...` / `DB<NS>...` names) is declared
         somewhere in the Swift (resp. Objective-C) output of the same spec, or is a name the templates /
-        tables / options mention literally.
+        tables / options mention literally;
+    (d) Objective-C: header and implementation of a class agree on the selectors of its methods (obj_c_client: both
+        directions and equally often; obj_c_types: every declared selector is defined).
 
 Not judged: whether the output compiles (no Swift / ObjC compiler here); names that collide under the
 backend's own naming scheme (the precondition `nameInjective` of the theorems: the direct oracle counts such
-cases and skips the exactly-once verdict for the colliding siblings); `--documentation` (needs the caller's
-`../Format/jazzy.json`); order of declarations.
+cases and skips the exactly-once verdict for the colliding siblings; swift_client's own refusal of two routes
+with one generated name, check_route_name_conflict, is counted the same way); `--documentation` (needs the
+caller's `../Format/jazzy.json`); order of declarations.
+
+Measuring: under coverage.py (tools/cov.py) or with C17_POOL=0 the cases are evaluated in this process instead of
+the worker pool, so that the statements of /repo they execute are seen. C17_ONLY=seed,grid,gen restricts the
+families (development only).
 """
 import ast
 import collections
@@ -39,12 +46,18 @@ import traceback
 from harness import core
 
 RULE = ('generated specs (specgen presets routes / default / fe with a stone_cfg.Route schema host/style/auth/'
-        'is_preview/scope and attributes drawn from rpc/upload/download x user/app/team/noauth, route exotic '
-        'types, defaults, nullable/list/map nesting, inheritance, enumerated subtypes, cross-namespace refs) + '
-        'hand seeds harness/specs/c17_*.stone, each through the six backend invocations; every emitted file is '
-        'lexed; declarations scanned and compared with the IR and with the Lean model; 4 x N random type '
-        'expressions per mapper against the model. A case is non-trivial when the spec has at least one user '
-        'type or route.')
+        'is_preview/scope and attributes drawn from rpc/upload/download x user/app/team/noauth and auth lists in either '
+        'order, route exotic types, defaults, nullable/list/map nesting, inheritance, enumerated subtypes, '
+        'cross-namespace refs) + hand seeds harness/specs/c17_*.stone (one per listed finding; families for defaults, '
+        'documentation references and degenerate shapes) + a deterministic grid: 87 type shapes (every primitive with and '
+        'without constraints, every kind of user type of the own and of another namespace, lists nested up to four deep, '
+        'maps, nullable items) each as required / optional / inherited field, field of a route argument struct, tag, '
+        'nullable tag, inherited tag and directly as route argument / result / error; each spec through the six '
+        'invocations under an option grid (swift_client -w none/app/user/team, obj_c_client -w user/app/team/noauth, '
+        'obj_c_types with and without -e, three sets of client-args / style-to-request tables with one to three variants '
+        'per style); every emitted file is lexed; declarations scanned and compared with the IR and with the Lean model; '
+        'header and implementation selectors of every Objective-C class compared; 4 x N random type expressions per '
+        'mapper against the model. A case is non-trivial when the spec has at least one user type or route.')
 
 # ======================================================================================================
 # 0. options of the six invocations
@@ -86,10 +99,32 @@ OC_CLIENT_ARGS_ALT = {
 }
 OC_STYLE_TO_REQUEST_ALT = {'rpc': 'DBRpcJob', 'upload': 'DBUploadJob', 'download_url': 'DBDownloadUrlJob',
                            'download_data': 'DBDownloadDataJob'}
+# a third set: three upload variants and two download variants, every one with extra arguments (also the ones that
+# are not last), one variant with two extra arguments
+SW_CLIENT_ARGS_MULTI = {
+    'upload': [['upload', [['input', '.data(input)', 'Data', 'The data to upload.']]],
+               ['upload', [['input', '.file(input)', 'URL', 'The file to upload.']]],
+               ['upload', [['length', 'length', 'UInt64', 'The length.'],
+                           ['input', '.stream(input)', 'InputStream', 'The stream to upload.']]]],
+    'download': [['download_file', [['overwrite', 'overwrite', 'Bool = false', 'Overwrite the destination.'],
+                                    ['destination', 'destination', 'URL', 'Where to store the download.']]],
+                 ['download_memory', [['limit', 'limit', 'Int', 'Upper bound of the size.']]]],
+}
+OC_CLIENT_ARGS_MULTI = {
+    'upload': [['upload', ['Data', [['inputData', 'inputData', 'NSData *', 'The data to upload.']]]],
+               ['upload', ['Url', [['inputUrl', 'inputUrl', 'NSString *', 'The file to upload.']]]],
+               ['upload', ['Stream', [['length', 'length', 'NSNumber *', 'The length.'],
+                                      ['inputStream', 'inputStream', 'NSInputStream *', 'The stream to upload.']]]]],
+    'download': [['download_url', ['Url', [['overwrite', 'overwrite', 'BOOL', 'Overwrite.'],
+                                           ['outputUrl', 'outputUrl', 'NSURL *', 'Destination.']]]],
+                 ['download_data', ['Data', [['limit', 'limit', 'NSNumber *', 'Upper bound of the size.']]]]],
+}
 CLIENT_TABLES = {
     'std': dict(sw_args=SW_CLIENT_ARGS, sw_req=SW_STYLE_TO_REQUEST, oc_args=OC_CLIENT_ARGS, oc_req=OC_STYLE_TO_REQUEST),
     'alt': dict(sw_args=SW_CLIENT_ARGS_ALT, sw_req=SW_STYLE_TO_REQUEST_ALT, oc_args=OC_CLIENT_ARGS_ALT,
                 oc_req=OC_STYLE_TO_REQUEST_ALT),
+    'multi': dict(sw_args=SW_CLIENT_ARGS_MULTI, sw_req=SW_STYLE_TO_REQUEST, oc_args=OC_CLIENT_ARGS_MULTI,
+                  oc_req=OC_STYLE_TO_REQUEST),
 }
 
 
@@ -99,7 +134,7 @@ def client_tables(opts):
 
 def runs_for(sw_auth=None, oc_auth='user', opts=None):
     """[(key, backend module, args)] -- the six invocations of the property (+ companions, see below). `opts`:
-    client_args ('std' | 'alt': which client tables), oc_e (obj_c_types --exclude-from-analysis)"""
+    client_args ('std' | 'alt' | 'multi': which client tables), oc_e (obj_c_types --exclude-from-analysis)"""
     T = client_tables(opts)
     sw = ['-m', MODULE, '-c', CLASS, '-t', TRANSPORT, '-y', json.dumps(T['sw_args']), '-z',
           json.dumps(T['sw_req'])] + (['-w', sw_auth] if sw_auth else [])
@@ -707,7 +742,9 @@ def scan_objc(toks):
                         break
                 k += 1
             decls.append(dict(kind='method', scope=[cur['name']], name=''.join(sel), cls=(t.text == '+'),
-                              line=t.line, lo=i, hi=k + 1, head=(i, k)))
+                              line=t.line, lo=i, hi=k + 1, head=(i, k),
+                              unavailable=any(toks[x].kind == 'id' and toks[x].text == 'NS_UNAVAILABLE'
+                                              for x in range(j, min(k, n)))))
             if k < n and toks[k].text == '{':
                 # skip the body
                 dd = 1
@@ -1182,7 +1219,7 @@ def builtin_names(lang):
         for f in ('swift.py', 'swift_helpers.py', 'swift_types.py', 'swift_client.py'):
             for s in _py_string_constants(os.path.join(bdir, f)):
                 names.update(re.findall(r'[A-Za-z_][A-Za-z0-9_]*', s))
-        for d in (SW_CLIENT_ARGS, SW_CLIENT_ARGS_ALT):
+        for d in (SW_CLIENT_ARGS, SW_CLIENT_ARGS_ALT, SW_CLIENT_ARGS_MULTI):
             for variants in d.values():
                 for v in variants:
                     for a in v[1]:
@@ -1195,7 +1232,8 @@ def builtin_names(lang):
         for f in ('obj_c.py', 'obj_c_helpers.py', 'obj_c_types.py', 'obj_c_client.py'):
             for s in _py_string_constants(os.path.join(bdir, f)):
                 names.update(re.findall(r'[A-Za-z_][A-Za-z0-9_]*', s))
-        for variants in list(OC_CLIENT_ARGS.values()) + list(OC_CLIENT_ARGS_ALT.values()):
+        for variants in list(OC_CLIENT_ARGS.values()) + list(OC_CLIENT_ARGS_ALT.values()) + \
+                list(OC_CLIENT_ARGS_MULTI.values()):
             for v in variants:
                 for a in v[1][1]:
                     for s in a[:3]:
@@ -1380,6 +1418,40 @@ def check_decls(key, E, decls):
             out.append(('duplicate-declaration', {'oracle': 'exactly-once', 'backend': key, 'kind': e['kind']},
                         {'item': e['what'], 'name': e['name'], 'scope': list(e['scope']), 'unit': e['unit'],
                          'expected_count': want, 'found': got}))
+    return out
+
+
+def check_selectors(key, decls):
+    """Objective-C: header and implementation of one class agree on its methods. obj_c_client: every selector the
+    header of a routes / client class declares is defined in the implementation, equally often, and the other way round
+    (a route method is the same declaration in both units). obj_c_types: every selector a header declares is defined
+    (implementations also override NSObject / protocol methods the header does not repeat). -> (what, sig, detail)"""
+    out = []
+    by = collections.OrderedDict()
+    for d in decls:
+        if d['kind'] == 'method' and d['unit'] in ('h', 'm') and d['scope'] and not d.get('unavailable'):
+            hm = by.setdefault(d['scope'][0], {'h': collections.Counter(), 'm': collections.Counter(), 'line': {}})
+            sel = ('+' if d.get('cls') else '-') + d['name']
+            hm[d['unit']][sel] += 1
+            hm['line'].setdefault((d['unit'], sel), (d['file'], d['line']))
+    both = key == 'obj_c_client'
+    for cls, hm in by.items():
+        for sel in sorted(set(hm['h']) | set(hm['m'])):
+            h, m = hm['h'].get(sel, 0), hm['m'].get(sel, 0)
+            if h == m or (not both and h <= m):
+                continue
+            if h > m:
+                what, where = 'declared-not-defined', hm['line'][('h', sel)]
+            else:
+                what, where = 'defined-not-declared', hm['line'][('m', sel)]
+            # the nearest selector of the other unit with the same first part: what the two units disagree on
+            other = 'm' if h > m else 'h'
+            first = sel.split(':')[0]
+            near = sorted(x for x in hm[other] if x.split(':')[0] == first and hm['h'].get(x, 0) != hm['m'].get(x, 0))
+            out.append(('selector-mismatch', {'oracle': 'exactly-once', 'backend': key, 'kind': 'selector-h-m',
+                                              'what': what},
+                        {'class': cls, 'selector': sel, 'in_header': h, 'in_implementation': m,
+                         'file': where[0], 'line': where[1], 'other_unit_has': near[:4]}))
     return out
 
 
@@ -1856,8 +1928,9 @@ def gen_case(seed, family):
         opts['oc_auth'] = 'noauth'
     if rng.random() < 0.3:
         opts['oc_e'] = True
-    if rng.random() < 0.2:
-        opts['client_args'] = 'alt'
+    r = rng.random()
+    if r < 0.35:
+        opts['client_args'] = 'alt' if r < 0.15 else 'multi'
     return {'suite': 'decl.swift.spec', 'origin': 'gen:%s:%s' % (family, seed), 'specs': [list(x) for x in specs],
             'opts': opts}
 
@@ -1887,7 +1960,12 @@ def seed_cases():
             for i in range(1, len(parts), 2):
                 specs.append([parts[i], parts[i + 1]])
             specs.append(['stone_cfg.stone', STONE_CFG])
-            for opts in ({'sw_auth': None, 'oc_auth': 'user'}, {'sw_auth': 'app', 'oc_auth': 'team'}):
+            optss = [{'sw_auth': None, 'oc_auth': 'user'}, {'sw_auth': 'app', 'oc_auth': 'team'}]
+            if f.startswith('c17_grid_') or f == 'c17_basic.stone':
+                # the clean families also under the other option sets
+                optss += [{'sw_auth': 'team', 'oc_auth': 'noauth', 'oc_e': True, 'client_args': 'multi'},
+                          {'sw_auth': 'user', 'oc_auth': 'app', 'client_args': 'alt'}]
+            for opts in optss:
                 out.append({'suite': 'decl.swift.spec', 'origin': 'seed:%s' % f, 'specs': specs, 'opts': opts})
     return out
 
@@ -2013,6 +2091,8 @@ GRID_OPTS = [
     ({'sw_auth': 'user', 'oc_auth': 'team'}, ('team', 'user, team', 'app, team', 'team, app'), 'app'),
     ({'sw_auth': None, 'oc_auth': 'noauth', 'oc_e': True}, ('noauth', 'user, noauth', 'noauth, app'), 'app'),
     ({'sw_auth': 'team', 'oc_auth': 'user', 'client_args': 'alt'}, ('user', 'noauth', 'user, app', 'team, user'), 'app'),
+    ({'sw_auth': None, 'oc_auth': 'user', 'client_args': 'multi'}, ('user', 'user, app', 'noauth'), 'app'),
+    ({'sw_auth': 'app', 'oc_auth': 'team', 'client_args': 'multi', 'oc_e': True}, ('app, team', 'team, app'), 'user'),
 ]
 
 
@@ -2185,6 +2265,10 @@ def eval_case(case, keep_files=False):
                     continue
                 res['problems'].append((what, sig, dict(detail, backend=key)))
             res['stats']['expected_items.' + key] = len(E)
+            if key in OBJC_KEYS:
+                sel = check_selectors(key, decls)
+                res['problems'].extend((w, sg, dict(dt, backend=key)) for w, sg, dt in sel)
+                res['stats']['selectors_compared.' + key] = sum(1 for d in decls if d['kind'] == 'method' and d['unit'] == 'h')
             if key not in COMPANION_KEYS:
                 res['runs'][key]['compact'] = compact(key, decls, tokens, ir, nm, opts)
         sw_keys = SWIFT_KEYS + (COMPANION_KEYS if opts.get('sw_auth') == 'app' else ())
@@ -2543,7 +2627,7 @@ def suite_specs(ck):
             ck.stat('c17.bytes_lexed', run.get('bytes', 0))
             ck.stat('c17.decls_scanned', run.get('decls', 0))
         for k, v in st.items():
-            if k.startswith('expected_items.') or k.startswith('closure') or k.startswith('not_judged'):
+            if k.startswith(('expected_items.', 'closure', 'not_judged', 'selectors_compared.')):
                 ck.stat('c17.' + k, v)
         if 'api' in res:
             for k, v in _features(res['api']).items():
